@@ -148,14 +148,15 @@ def step_par(groups):
     return {'do': 'par', 'as': '', 'res': '', 'args': [], 'steps': groups}
 
 
-def execute(w, scenarios, workers=6, timeout=1500, race=False, tag='prog'):
+def execute(w, scenarios, workers=6, timeout=1500, race=False, tag='prog', env=None):
     """Run scenarios through the harness; return records (one per scenario, same order)."""
     json.dump(scenarios, open(w.out('%s_cases.json' % tag), 'w'))
     out = w.out('prog_records.ndjson')
     if os.path.exists(out):
         os.remove(out)
-    p = w.gotest('./verifprog/', 'TestVerifProg$', env={'VERIF_CASES': w.out('%s_cases.json' % tag), 'VERIF_WORKERS': workers},
-                 timeout=timeout, race=race)
+    e = {'VERIF_CASES': w.out('%s_cases.json' % tag), 'VERIF_WORKERS': workers}
+    e.update(env or {})
+    p = w.gotest('./verifprog/', 'TestVerifProg$', env=e, timeout=timeout, race=race)
     if p.returncode != 0 or not os.path.exists(out):
         raise Inconclusive('program harness failed:\n' + (p.stdout or '')[-4000:])
     recs = vlib.read_ndjson(out)
